@@ -124,9 +124,19 @@ func (c *core) execFunc() (*Response, error) {
 		}
 		return resp, nil
 	case <-c.ctx.Done():
-		atomic.SwapInt32(&done, 1)
-		ReleaseResponse(resp)
-		return nil, ErrTimeoutOrCancel
+		if atomic.CompareAndSwapInt32(&done, 0, 1) {
+			// The transport goroutine has not finished: it will neither touch resp nor errCh.
+			ReleaseResponse(resp)
+			return nil, ErrTimeoutOrCancel
+		}
+		// The transport goroutine finished first and owns the hand-off: its result is (about to
+		// be) in errCh. Take it, so that neither a response being filled nor a channel holding a
+		// value goes back to the pools.
+		if err := <-errCh; err != nil {
+			ReleaseResponse(resp)
+			return nil, err
+		}
+		return resp, nil
 	}
 }
 
